@@ -50,7 +50,7 @@ def run(chk, replay=None):
     chk.cov["events"] = len(rows)
     for e in rows[:2] + [r for r in rows if r["e"] == "Wide"][:2]:
         chk.sample(e)
-    ok, matched, res = chk.validate("Trace_C16", trace, need_actions=("Share", "WideShare"))
+    ok, matched, res = chk.validate("Trace_C16", trace, need_actions=("Share", "Wide"))
     if not ok:
         bad = rows[matched] if matched < len(rows) else None
         chk.violation("C16:share", trace, "event %d is not a step of the tiling machine: %s" % (matched + 1, bad))
